@@ -8,11 +8,11 @@ cargo test --offline --lib --test entry 2>&1 | grep -E "^test result" > /tmp/con
 existing_ok=$(grep -c "ok\." /tmp/confirm_$id.txt); existing_fail=$(grep -c "FAILED" /tmp/confirm_$id.txt)
 if [ -f tests/seeded_demo.rs ]; then
   with=$(cargo test --offline --test seeded_demo 2>&1 | grep -E "^test result" | head -1)
-  git stash push -q -- src
+  git diff -- src > /tmp/confirm_change_$id.diff; git apply -R /tmp/confirm_change_$id.diff
   without=$(cargo test --offline --test seeded_demo 2>&1 | grep -E "^test result" | head -1)
-  git stash pop -q
+  git apply /tmp/confirm_change_$id.diff
 else
-  with=$(bash seeded_demo.sh 2>&1 | tail -1; echo "rc=$?"); git stash push -q -- src; without=$(bash seeded_demo.sh 2>&1 | tail -1; echo "rc=$?"); git stash pop -q
+  with=$(bash seeded_demo.sh 2>&1 | tail -1; echo "rc=$?"); git diff -- src > /tmp/confirm_change_$id.diff; git apply -R /tmp/confirm_change_$id.diff; without=$(bash seeded_demo.sh 2>&1 | tail -1; echo "rc=$?"); git apply /tmp/confirm_change_$id.diff
 fi
 echo "$id existing: ok=$existing_ok failed=$existing_fail | demo with change: $with | demo without: $without"
 mkdir -p /verif/seeded/$id
